@@ -65,5 +65,7 @@ func init() {
 	register("C10", "", ruleErrStructure)
 	register("C13", "", ruleErrStructure)
 	register("C20", "", ruleErrStructure)
+	register("C15", "", ruleIntrospectionQuery, ruleDecodedFieldsUsed, ruleKindGuardsReader)
+	register("C16", "", ruleResolverSpec, ruleIntrospectionSources, r7(scope{"resolver", []string{"introspection.(*IntrospectionResolver).ResolveIntrospectionFields"}}), ruleMapRanges(scope{"resolver", []string{"introspection.(*IntrospectionResolver).ResolveIntrospectionFields"}}, 2))
 	register("X6", "debug: R6 over whole module", ruleErr(errScope{label: "all", pkgs: []string{"pebbles", "common", "executor", "format", "gqlerrors", "introspection", "merger", "planner", "queryer", "requests"}}))
 }
